@@ -471,11 +471,11 @@ def r8_arena_monotone(c, facts):
         c.ok(R, {'arena': 'only new_node / append mutate it', 'uses': n})
 
 
-def r9_context_state(c, facts):
+def r9_context_state(c, facts, rule='C12.R9'):
     """the result of a production is a function of (cursor, tag): the parsing context carries no other mutable state that
     a production could read - only the tree (grows), the memo table, and two statistics cells.  A nesting counter that is
     not restored on failure makes the cached and the uncached parse disagree."""
-    R = c.rule('C12.R9', 'CONTEXT-STATE: the parsing context has no mutable state besides the tree, the memo table and its statistics; the table uses the standard hasher')
+    R = c.rule(rule, 'CONTEXT-STATE: the parsing context has no mutable state besides the tree, the memo table and its statistics; the table uses the standard hasher')
     adt = facts.adt('oal_model::grammar::Context')
     if not adt:
         c.bad(R, 'anchor-missing:grammar::Context', 'struct oal_model::grammar::Context not found')
@@ -531,7 +531,12 @@ def r11_no_scan(c, facts, rule='C12.R11'):
             continue
         for b, t in fn.calls():
             d = P.strip((callee_of(t) or {}).get('def', ''))
-            if not (d.split('::')[-1] in ('pop', 'head', 'advance', 'kind', 'get') and ('grammar::Context' in d or 'lexicon::TokenList' in d)):
+            raw = d.split('::')[-1] in ('pop', 'head', 'advance', 'kind', 'get') and ('grammar::Context' in d or 'lexicon::TokenList' in d)
+            # ... or a single-token production called in a loop of the production's own (`while let Ok(..) = parse_token_with(c,
+            # next, |_| true)`: a resynchronising skip re-reads what the failed statement had read); the combinators `repeat`
+            # and `intersperse` loop over *parsers* handed to them, which pass the memo points
+            single = d.split('::')[-1] in ('parse_token', 'parse_token_with') and fn.qname.split('::{closure')[0] not in ('oal_model::grammar::repeat', 'oal_model::grammar::intersperse')
+            if not (raw or single):
                 continue
             n += 1
             if not any(b in fn.reachable_from(x) for x in fn.succ(b)):
